@@ -170,6 +170,26 @@ def run(rep: common.Report, tier: str, seed: int, replay=None) -> int:
             if np.max(np.abs(np.asarray(Ai_) - np.asarray(Af_))) > 1e-12 * float(np.max(np.abs(Af_)) + 1e-300) or \
                     np.max(np.abs(np.asarray(Bi_) - np.asarray(Bf_))) > 1e-12 * float(np.max(np.abs(Bf_)) + 1e-300):
                 rep.violation("field / vector potential at integer-typed evaluation points differ from the same points given as floats", case)
+            # ... also as (m, 2) integer positions with a separate, non-integer height (scalar or array), and a single point
+            for P2, zs_ in ((np.array([[2, -1], [-3, 1], [1, 2]]), 0.75), (np.array([[2, -1], [-3, 1], [1, 2]]), np.array([0.75, 1.5, -0.4])),
+                            ([1, -1], 0.5), ([[0, 2]], 1.25)):
+                P2f = np.asarray(P2, dtype=float)
+                try:
+                    b_i = np.asarray(sol.field_at_position(P2, zs=zs_, vector=True, units="tesla", with_units=False))
+                    b_f = np.asarray(sol.field_at_position(P2f, zs=zs_, vector=True, units="tesla", with_units=False))
+                    z_i = np.asarray(sol.field_at_position(P2, zs=zs_, vector=False, units="tesla", with_units=False))
+                    a_i = np.asarray(sol.vector_potential_at_position(P2, zs=zs_, units="T * m", with_units=False))
+                    a_f = np.asarray(sol.vector_potential_at_position(P2f, zs=zs_, units="T * m", with_units=False))
+                except Exception as e:  # noqa: BLE001
+                    rep.violation(f"evaluation at integer (x, y) with height zs raised {type(e).__name__}: {e}"[:160], case)
+                    continue
+                ok_ = (b_i.shape == b_f.shape and np.all(np.isfinite(b_i)) and
+                       np.max(np.abs(b_i - b_f)) <= 1e-12 * float(np.max(np.abs(b_f)) + 1e-300) and
+                       np.max(np.abs(np.atleast_2d(b_i)[:, 2] - np.atleast_1d(z_i))) <= 1e-9 * float(np.max(np.abs(b_f)) + 1e-300) and
+                       np.max(np.abs(a_i - a_f)) <= 1e-12 * float(np.max(np.abs(a_f)) + 1e-300))
+                if not ok_:
+                    rep.violation("field / vector potential at integer (x, y) with a non-integer height differ from the float-typed call",
+                                  {**case, "positions": np.asarray(P2).tolist(), "zs": np.asarray(zs_).tolist()})
             # the applied part, in SI and in the default units, against the applied-potential parameter evaluated at the
             # same points (its gauge is centred on the set of points it is given) and converted by hand
             f_si = ureg(f"{fu} * {dev.length_units}").to("T * m").magnitude
